@@ -60,6 +60,10 @@ type Descriptor struct {
 	// fields, interface aliases) share it.
 	registration uint64
 
+	// resultFieldName is the Out struct field this descriptor was registered
+	// for (result objects only)
+	resultFieldName string
+
 	// Analysis results cached for performance
 	isFunc         bool
 	isResultObject bool
